@@ -12,6 +12,10 @@ Extracted (fail closed on any other shape):
     in `if <group>:`)                         -> src_run_pipeline_skips  ("absent" = the group is None / falsy)
   * ModelGroup.__iter__ guard, ModelGroup.run loop source, ModelFunction.__call__ argument passing
                                               -> src_group_iter_guard, src_group_run_iterates, src_model_call
+  * the attributes ModelGroup.__init__ sets and the ones __setstate__ restores (pickle round trip)
+                                              -> src_group_init_attrs, src_group_setstate_attrs
+  * every read of `detector.intermediate` in exposure.run_pipeline, "guarded" by a test of `_intermediate`
+    or "bare"                                 -> src_intermediate_reads
 The AST values are cross-checked against the imported module (MODEL_GROUPS, model_group_names,
 constructor signature) in a subprocess running with PYTHONPATH = the tree under test.
 """
@@ -282,6 +286,62 @@ def _model_call(tree: ast.Module):
     return parts
 
 
+def _self_attrs_assigned(fn: ast.FunctionDef) -> list[str]:
+    """names X of every `self.X = ...` / `self.X: T = ...` statement of the function (any nesting), in order"""
+    out = []
+    for n in ast.walk(fn):
+        tgts = []
+        if isinstance(n, ast.Assign):
+            tgts = n.targets
+        elif isinstance(n, (ast.AnnAssign, ast.AugAssign)):
+            tgts = [n.target]
+        for t in tgts:
+            if _is_self_attr(t) and t.attr not in out:
+                out.append(t.attr)
+    return out
+
+
+def _group_state(tree: ast.Module):
+    """What a ModelGroup carries (attributes set by __init__) and what __setstate__ restores after a pickle
+    round trip; without __setstate__ / __getstate__ the default pickling restores everything."""
+    cls = _cls(tree, "ModelGroup")
+    init = _self_attrs_assigned(find_func(cls, "__init__"))
+    sets = [n for n in cls.body if isinstance(n, ast.FunctionDef) and n.name == "__setstate__"]
+    gets = [n for n in cls.body if isinstance(n, ast.FunctionDef) and n.name == "__getstate__"]
+    if not sets and not gets:
+        return init, list(init)
+    if len(sets) != 1:
+        raise TranslationError("ModelGroup: __getstate__ without __setstate__ (or several)")
+    for n in ast.walk(sets[0]):
+        if isinstance(n, ast.Call) and isinstance(n.func, ast.Attribute) and n.func.attr == "update" \
+                and ast.unparse(n.func.value) == "self.__dict__":
+            raise TranslationError("ModelGroup.__setstate__ updates __dict__ wholesale: restored attributes unknown")
+    return init, _self_attrs_assigned(sets[0])
+
+
+def _intermediate_reads(tree: ast.Module):
+    """Every read of `detector.intermediate` (the property raises while `_intermediate` is None) in
+    exposure.run_pipeline: "guarded" when it sits under an `if` / conditional expression whose test looks at
+    `_intermediate`, else "bare"."""
+    fn = find_func(tree, "run_pipeline")
+    parent = {}
+    for n in ast.walk(fn):
+        for c in ast.iter_child_nodes(n):
+            parent[c] = n
+    out = []
+    for n in ast.walk(fn):
+        if isinstance(n, ast.Attribute) and n.attr == "intermediate" and isinstance(n.ctx, ast.Load):
+            guarded = False
+            cur = n
+            while cur in parent:
+                up = parent[cur]
+                if isinstance(up, (ast.If, ast.IfExp)) and cur is not up.test and "_intermediate" in ast.unparse(up.test):
+                    guarded = True
+                cur = up
+            out.append("guarded" if guarded else "bare")
+    return out
+
+
 RUNTIME = r"""
 import inspect, json
 from pyxel.pipelines import DetectionPipeline
@@ -304,7 +364,8 @@ def _runtime(repo: Path) -> dict:
     return json.loads(r.stdout.strip().splitlines()[-1])
 
 
-def render(groups, kwargs, feeds, props, iterated, guard, run_src, call_parts, skips=("absent",)) -> str:
+def render(groups, kwargs, feeds, props, iterated, guard, run_src, call_parts, skips=("absent",),
+           state=(("_log", "_name", "models"), ("_log", "models", "_name")), reads=("guarded", "guarded")) -> str:
     return (HEADER + PRELUDE +
             f"Definition src_model_groups : list string :=\n  {_lst(_s(g) for g in groups)}.\n"
             f"Definition src_ctor_kwargs : list string :=\n  {_lst(_s(g) for g in kwargs)}.\n"
@@ -317,7 +378,10 @@ def render(groups, kwargs, feeds, props, iterated, guard, run_src, call_parts, s
             f"Definition src_run_pipeline_skips : list string := {_lst(_s(x) for x in skips)}.\n"
             f"Definition src_group_iter_guard : string := {_s(guard)}.\n"
             f"Definition src_group_run_iterates : string := {_s(run_src)}.\n"
-            f"Definition src_model_call : list string := {_lst(_s(p) for p in call_parts)}.\n")
+            f"Definition src_model_call : list string := {_lst(_s(p) for p in call_parts)}.\n"
+            f"Definition src_group_init_attrs : list string := {_lst(_s(x) for x in state[0])}.\n"
+            f"Definition src_group_setstate_attrs : list string := {_lst(_s(x) for x in state[1])}.\n"
+            f"Definition src_intermediate_reads : list string := {_lst(_s(x) for x in reads)}.\n")
 
 
 def translate(repo: Path, runtime: bool = True) -> str:
@@ -340,7 +404,9 @@ def translate(repo: Path, runtime: bool = True) -> str:
             raise TranslationError(f"model_group_names returns {rt['names']}, MODEL_GROUPS literal is {groups}")
         if rt["sig"] != kwargs:
             raise TranslationError(f"constructor signature {rt['sig']} differs from the parsed keywords {kwargs}")
-    return render(groups, kwargs, feeds, props, iterated, guard, run_src, call_parts, skips)
+    state = _group_state(parse(repo, "pyxel/pipelines/model_group.py"))
+    reads = _intermediate_reads(parse(repo, "pyxel/exposure/exposure.py"))
+    return render(groups, kwargs, feeds, props, iterated, guard, run_src, call_parts, skips, state, reads)
 
 
 _G = ["scene_generation", "photon_collection", "phasing", "charge_generation", "charge_collection",
